@@ -3,13 +3,14 @@ import ScrapliModel.Gen.HostKeyGen
 /-
   C10 — strict host-key checking protects credentials.
 
-  Model of
-    scrapli/transport/plugins/paramiko/transport.py   open 68-101, _verify_key 103-136, _authenticate 138-171
+  Model of (line numbers: /repo at 4e2f419)
+    scrapli/transport/plugins/paramiko/transport.py   open 69-102, _verify_key 104-137, _authenticate 139-172
     scrapli/transport/plugins/ssh2/transport.py       open 46-81,  _verify_key 83-117,  _authenticate 119-213   (ssh2-python is
                                                       NOT installed here: modelled by reading only)
-    scrapli/transport/plugins/asyncssh/transport.py   _verify_key 92-112, _verify_key_value 114-147, open 149-222
+    scrapli/transport/plugins/asyncssh/transport.py   _verify_key 99-119, _known_host_keys 121-150 (added by 304e179),
+                                                      _verify_key_value 152-185, open 187-284
     scrapli/transport/plugins/system/transport.py     _build_open_cmd 69-138
-    scrapli/ssh_config.py                             SSHKnownHosts._parse 444-471, lookup 473-501
+    scrapli/ssh_config.py                             SSHKnownHosts._parse 449-476, lookup 478-506
 
   `open()` is an interpreter (`runFrom`) over the list of calls the translator extracts from the AST of each
   transport's `open()` IN SOURCE ORDER (Gen.paramikoOpenCalls …); each call has the semantics of the
@@ -113,43 +114,43 @@ def authenticate (lib : Lib) (c : Cfg) (s : St) : St :=
     else if c.accPw then s1.emit pw else (s1.emit pw).raise [] Exc.authenticationFailed   -- 171, then 94-97
   else if c.accPw then s.emit pw else (s.emit pw).raise [] Exc.authenticationFailed
 
-/-- `asyncssh.connect(**conn_args)` as called at asyncssh/transport.py:194-206.  `pinned` = the
-    arguments carry the key expected for this host in `known_hosts=` (only the repaired code does, and
-    only when strict).  LIBRARY CONTRACT (observed, not proved): options incl. client keys are loaded
+/-- `asyncssh.connect(**conn_args)` as called at asyncssh/transport.py:237-263, preceded (strict mode,
+    214-217) by `common_args["known_hosts"] = self._known_host_keys()`.  `pin` = that assignment
+    exists; `fallback` = `_known_host_keys` has a path that yields nothing instead of raising.  LIBRARY CONTRACT (observed, not proved): options incl. client keys are loaded
     first; then key exchange; with trusted keys given, a server key outside them ends the connection
     with HostKeyNotVerifiable BEFORE any authentication request; then publickey (if client keys), then
     password (sent even when empty); PermissionDenied when all are refused. -/
 def asyncsshConnect (pin fallback : Bool) (c : Cfg) (s : St) : St :=
-  -- repaired code only (asyncssh/transport.py `_known_host_keys`): look the host up again and load the
-  -- key for asyncssh; KeyError (nothing found) / KeyImportError (unusable key) raise
-  -- ScrapliAuthenticationFailed — unless the method has a non-raising path (`fallback`), in which case
-  -- connect() gets `known_hosts=None` as in the unrepaired code
+  -- `_known_host_keys` 137-150: look the host up again (138), `import_public_key(key_type + " " + public_key)`
+  -- (141-144); KeyError (nothing found) / KeyImportError (unusable key) raise ScrapliAuthenticationFailed
+  -- (145-148) — unless the method has a non-raising path (`fallback`), in which case connect() gets
+  -- `known_hosts=None` as in the code before 304e179
   let s := if pin then s.emit [Ev.lookup c.found (c.found && c.equal)] else s
   let usable := c.found && c.importable
   if pin && !usable && !fallback then s.raise [] Exc.authenticationFailed
   else
   let pinned := pin && usable
   if c.hasKey && !c.keyLoads then s.raise [] Exc.library            -- KeyImportError / FileNotFoundError
-  else if !c.kexOK then s.raise [Ev.kex] Exc.library
-  else if pinned && !c.equal then s.raise [Ev.kex, Ev.verifyFail] Exc.authenticationFailed   -- HostKeyNotVerifiable
+  else if !c.kexOK then s.raise [Ev.kex] Exc.connectionNotOpened     -- OSError / DisconnectError 260-263
+  else if pinned && !c.equal then s.raise [Ev.kex, Ev.verifyFail] Exc.authenticationFailed   -- HostKeyNotVerifiable 242-251
   else
     let offers : List Ev := if c.hasKey then [Ev.offerKey] else []
     if c.hasKey && c.accKey then s.emit (Ev.kex :: offers)
     else if c.accPw then s.emit (Ev.kex :: offers ++ [Ev.offerPassword])
-    else s.raise (Ev.kex :: offers ++ [Ev.offerPassword]) Exc.authenticationFailed       -- PermissionDenied
+    else s.raise (Ev.kex :: offers ++ [Ev.offerPassword]) Exc.authenticationFailed       -- PermissionDenied 252-255
 
 /-- what one call of `open()` does -/
 def stepCall (lib : Lib) (c : Cfg) (s : St) : Call → St
-  | .handshake =>                                   -- paramiko 81-86, ssh2 62-66
+  | .handshake =>                                   -- paramiko 82-87, ssh2 62-66
     if c.kexOK then s.emit [Ev.kex] else s.raise [Ev.kex] Exc.connectionNotOpened
-  | .verifyKey =>                                   -- paramiko 122-136, ssh2 101-117
+  | .verifyKey =>                                   -- paramiko 123-137, ssh2 101-117
     if !c.found then s.raise [Ev.lookup false false, Ev.verifyFail] Exc.authenticationFailed
     else if !c.equal then s.raise [Ev.lookup true false, Ev.verifyFail] Exc.authenticationFailed
     else s.emit [Ev.lookup true true, Ev.verifyOK]
-  | .verifyPresent =>                               -- asyncssh 106-112
+  | .verifyPresent =>                               -- asyncssh 113-119
     if !c.found then s.raise [Ev.lookup false false, Ev.verifyFail] Exc.authenticationFailed
     else s.emit [Ev.lookup true c.equal]
-  | .verifyValue =>                                 -- asyncssh 133-147 (`{}["public_key"]`: KeyError)
+  | .verifyValue =>                                 -- asyncssh 168-185 (`{}["public_key"]`: KeyError)
     if !c.found then s.raise [Ev.lookup false false] Exc.library
     else if !c.equal then s.raise [Ev.lookup true false, Ev.verifyFail] Exc.authenticationFailed
     else s.emit [Ev.lookup true true, Ev.verifyOK]
@@ -180,9 +181,9 @@ def paramikoOrder : List (Call × Bool) :=
 /-- ssh2 63 handshake · 68-70 `if strict: _verify_key()` · 72 _authenticate (+74-77) · 79 _open_channel -/
 def ssh2Order : List (Call × Bool) :=
   [(.handshake, false), (.verifyKey, true), (.authenticate, false), (.openChannel, false)]
-/-- asyncssh 152-157 `if strict: _verify_key()` (presence) · 194-198 connect · 211-216 `if strict:
-    _verify_key_value()` · 218 open_session; `pin` = strict mode hands the expected key to connect;
-    `fallback` = … unless it cannot load it (line numbers of the unrepaired file) -/
+/-- asyncssh 190-195 `if strict: _verify_key()` (presence) · 237-241 connect · 268-273 `if strict:
+    _verify_key_value()` · 276 open_session; `pin` = strict mode hands the expected key to connect;
+    `fallback` = … unless it cannot load it -/
 def asyncsshOrder (pin fallback : Bool) : List (Call × Bool) :=
   [(.verifyPresent, true), (.connect pin fallback, false), (.verifyValue, true), (.openChannel, false)]
 
